@@ -35,15 +35,27 @@ func verifBeginBlock(ctx sdk.Context, k Keeper) {
 }
 
 // verifC03Config: a validation-accepted configuration of 1 or 2 sub-distributors (sizes by tier).
+// The thorough tier widens ONE dimension per path (their product does not finish): vC03Dim = 0 quick bounds,
+// 1 = degenerate books (destinations without state / with empty leftovers, zero inflows), 2 = a second sub-distributor (one source, no
+// named share) in generic position.
+var vC03Dim = 0
+
 func verifC03Config() types.Params {
 	var subs []types.SubDistributor
 	nsub := 1
+	vC03Dim = 0
 	if verif_tier() > 0 {
-		nsub = verif_choice("nsub", 2) + 1
+		vC03Dim = verif_choice("thoroughDimension", 3)
+		if vC03Dim == 2 {
+			nsub = 2
+		}
 	}
 	for i := 0; i < nsub; i++ {
 		nsrc := verif_choice("nsrc"+string(rune('1'+i)), 2) + 1
 		withShare := verif_choice("withShare"+string(rune('1'+i)), 2) == 1
+		if i == 1 {
+			nsrc, withShare = 1, false
+		}
 		sd := verifSub(i, nsrc, withShare)
 		verif_assume(sd.Validate() == nil)
 		subs = append(subs, sd)
@@ -56,14 +68,14 @@ func verifC03Config() types.Params {
 // A quantity is either exactly zero or an arbitrary strictly positive value: the zero case is split off by construction
 // (a concrete fork) instead of being rediscovered by the solver at every IsZero test inside the Coins / DecCoins code.
 func verifPosOrZeroInt(name string) math.Int {
-	if verif_tier() > 0 && verif_choice("zero_"+name, 2) == 1 {
+	if vC03Dim == 1 && verif_choice("zero_"+name, 2) == 1 {
 		return sdk.ZeroInt()
 	}
 	return verif_int_range(name, "1", dMaxAmt)
 }
 
 func verifPosOrZeroDec(name string) sdk.Dec {
-	if verif_tier() > 0 && verif_choice("zero_"+name, 2) == 1 {
+	if vC03Dim == 1 && verif_choice("zero_"+name, 2) == 1 {
 		return sdk.ZeroDec()
 	}
 	return verif_dec_range(name, "1", "2e36")
@@ -79,7 +91,7 @@ func verifC03Books(k Keeper, ctx sdk.Context, p types.Params) {
 	// or a state with arbitrary positive remains
 	// (quick tier: generic position only — positive remains and inflows; the degenerate modes run in the thorough tier)
 	mode := 2
-	if verif_tier() > 0 {
+	if vC03Dim == 1 {
 		mode = verif_choice("stateMode", 3)
 	}
 	rem := func(tag string) sdk.DecCoins {
@@ -316,7 +328,7 @@ func Verif_C03_step_lemma() {
 var vC03Refusing = true
 
 func verifC03RefusingAccounts(ctx sdk.Context, p types.Params) {
-	if !vC03Refusing {
+	if !vC03Refusing || vC03Dim != 0 {
 		return
 	}
 	usesDst, usesSrc := false, false
